@@ -76,6 +76,7 @@ class Cfg:
     sigexts: tuple = ()              # 'l<tag>' | 'r'
     ct: tuple = ()                   # 'T','F','P','E'
     contracts: tuple = ()            # (id bytes, kind letter)
+    falsy: tuple = ()                # named settings passed explicitly with a false value (same meaning as absent; not part of line())
 
     def line(self) -> str:
         return ':'.join([
@@ -96,6 +97,8 @@ class Cfg:
         if self.epoch != 60: fl['epoch_threshold'] = 'sixty' if self.epoch == 'x' else self.epoch
         if self.disallow_eval: fl['disallow_OP_EVAL'] = True
         if self.eval_return: fl['eval_return'] = True
+        for k in self.falsy:
+            if k not in fl: fl[k] = False
         return fl
 
 
